@@ -303,6 +303,18 @@ def op_table(o: Operands, subset=False):
         add("concatenate", f"concatenate([x,y,x],{a})", lambda a=a: sparse.concatenate([x, y, x], axis=a), not subset)
         add("stack", f"stack([x,y],{a})", lambda a=a: sparse.stack([x, y], axis=a))
     add("stack", "stack([x,y],-1)", lambda: sparse.stack([x, y], axis=-1))
+    # the NEW axis of stack / the grown axis of concatenate counts the operands: more operands than the operands' index type can count
+    if nd == 1:
+        tiny = o.mk(np.array([[0, 1]]), np.array([1, 2]), (2,))
+        tiny2 = o.mk(np.array([[0, 1], [0, 1]]), np.array([3, 4]), (2, 2))
+        for k in ((L, L + 2) if subset else (L - 1, L, L + 1, L + 2)):
+            add("concatenate", f"stack([tiny]*{k},0)", lambda k=k: sparse.stack([tiny] * k, axis=0))
+            add("concatenate", f"stack([tiny]*{k},-1)", lambda k=k: sparse.stack([tiny] * k, axis=-1))
+            add("concatenate", f"stack([tiny2]*{k},1)", lambda k=k: sparse.stack([tiny2] * k, axis=1), not subset)
+            add("concatenate", f"concatenate([tiny]*{k})", lambda k=k: sparse.concatenate([tiny] * k, axis=0))
+            add("concatenate", f"concatenate([tiny2]*{k},1)", lambda k=k: sparse.concatenate([tiny2] * k, axis=1), not subset)
+            add("gcxs-join", f"stack([tiny2.gcxs]*{k},0)", lambda k=k: sparse.stack([tiny2.asformat("gcxs")] * k, axis=0), not subset)
+            add("gcxs-join", f"stack([tiny.gcxs]*{k},0)", lambda k=k: sparse.stack([tiny.asformat("gcxs")] * k, axis=0))
     add("concatenate", "concatenate(axis=None)", lambda: sparse.concatenate([x, y], axis=None), not subset)
     # ---- roll / flip ----------------------------------------------------------------------------
     for sh in (1, -1, e - 1, -(e - 1), e, 2 * e + 1, L - e + 1, L - e, L, -L, 100, -100):
@@ -405,6 +417,12 @@ def op_table(o: Operands, subset=False):
             add("gcxs-getitem", f"{tag}[..., ::-2]", lambda G=G: G()[0][..., ::-2], not subset)
             add("gcxs-getitem", f"{tag}[int]", lambda G=G: G()[0][sl(e - 1)])
             add("gcxs-getitem", f"{tag}[adv]", lambda G=G: G()[0][sl(np.array([e - 1, 0]))], not subset)
+            # an integer for the first / last axis only: for nd >= 3 the remaining axes are re-split (indices // size, indices % size)
+            add("gcxs-getitem", f"{tag}[0]", lambda G=G: G()[0][0])
+            add("gcxs-getitem", f"{tag}[-1]", lambda G=G: G()[0][-1])
+            add("gcxs-getitem", f"{tag}[..., 0]", lambda G=G: G()[0][..., 0])
+            add("gcxs-getitem", f"{tag}[..., -1]", lambda G=G: G()[0][..., -1], not subset)
+            add("gcxs-getitem", f"{tag}[0, ..., -1]", lambda G=G: G()[0][0, ..., -1], nd >= 3)
             add("gcxs-getitem", f"{tag}[all ints]", lambda G=G: G()[0][tuple(int(v) for v in o.coords[:, -1])])
             add("gcxs-shape", f"{tag}.T", lambda G=G: G()[0].T)
             add("gcxs-shape", f"{tag}.reshape(-1)", lambda G=G: G()[0].reshape((-1,)))
